@@ -21,6 +21,8 @@ REGISTRY = {
     'C15': e2props.c15,
     'C02': e2props.c02,
     'C11': e2props.c11,
+    'C07': e2props.c07,
+    'C16': e2props.c16,
     'C05': e2props.c05,
     'C03': e2props.c03,
     'C10': e2props.c10,
